@@ -205,7 +205,7 @@ def falsify(ctx, hints):
     rng = ctx.rng
     fails = []
     info = {"membership": 0, "placement": 0, "roundtrip": 0, "arip": 0, "select": 0}
-    n = ctx.scale(60, 1500)
+    n = ctx.scale(24, 1200)
 
     def add(key, what, inp, obs=None, req=None, repro=""):
         fails.append(Failure(key, what, inp, obs, req, repro))
@@ -213,7 +213,7 @@ def falsify(ctx, hints):
     for it in range(n):
         fs = rng.choice([2, 4, 12, 365])
         nv = rng.choice([1, 2])
-        length = rng.randint(2, 30) if fs != 365 else rng.randint(20, 500)
+        length = rng.randint(2, 30) if fs != 365 else rng.randint(20, 260)
         spec = sc.rand_series_spec(rng, freq=fs, nv=nv, maxlen=length, allow_empty=False, p_nan=0.08)
         if fs == 365:
             spec["start"] = dt.date(rng.randint(1999, 2024), rng.randint(1, 12), rng.randint(1, 28)).toordinal()
@@ -270,6 +270,11 @@ def falsify(ctx, hints):
             lo_spec = sc.rand_series_spec(rng, freq=ft, nv=nv, maxlen=8, allow_empty=False, p_nan=0.1)
             lo = sc.mk_series(lo_spec)
             for fh in [f for f in REG + [365] if f > ft]:
+                if fh == 365 and len(lo_spec["rows"]) > 3:      # keep daily spans short (speed)
+                    lo_spec = {**lo_spec, "rows": lo_spec["rows"][:3]}
+                    if all(v != v for v in lo_spec["rows"][-1]):
+                        lo_spec["rows"][-1] = [1.5] * nv
+                    lo = sc.mk_series(lo_spec)
                 linp = {"series": lo_spec, "target": fh}
                 for dm, ams in (("flat", ("mean", "first", "last", "min", "max")), ("first", ("first",)), ("last", ("last",))):
                     hi = ir.disaggregate(lo, _freq_enum(fh), method=dm)
